@@ -70,7 +70,7 @@ Next ==
   \/ On("lookup") /\ \E k \in CallerSet, n \in NameSet, dl \in LookupDeadlines : S!Lookup(k, n, Dl(LookupDeadlines, dl))
   \/ \E k \in CallerSet : S!LookupEnter(k) \/ S!LookupGiveUp(k) \/ S!CtxExpire(k)
   \/ On("cancel") /\ \E k \in CallerSet : S!Cancel(k)
-  \/ On("close") /\ S!Close
+  \/ On("close") /\ (S!Close \/ S!PollerExit)
   \/ On("svc") /\ phase # "config" /\ \E n \in NameSet, v \in 0..MaxVer : v # svc[n].ver /\ S!SvcActivate(n, v)
   \/ On("cachefault") /\ \E w \in BOOLEAN : w # cache.wfail /\ S!CacheFault(w)
   \/ \E t \in NextTimes : S!Advance(t)
@@ -83,6 +83,7 @@ View == <<cfg, svc, m, handles, cache, phase, closed, ini, poll, lk, rq, call, n
 InitOK == S!InitOK
 HandleNeverDangles == S!HandleNeverDangles
 InstalledServed == S!InstalledServed
+InstLast == S!InstLast
 PollConverges == S!PollConverges
 Coalesce == S!Coalesce
 LookupGate == S!LookupGate
